@@ -68,6 +68,11 @@ func classifyC05(r c05res, secret []byte, hist [][]byte) string {
 		if r.p == nil {
 			return "nil-nil"
 		}
+		// "the packet returned is the parse of that datagram" - and stays so: for two cases in three the caller keeps
+		// the packet while another exchange (other secret, a long reply) runs before it looks at it
+		if (int(r.p.Identifier)+len(hist))%3 != 0 {
+			priorExchangeC05(&radius.Client{})
+		}
 		fields := showPacketFields(r.p)
 		idx := -1
 		for i, d := range hist {
@@ -259,14 +264,22 @@ func evalC05(op string, args []string) string {
 		return "UNKNOWN-OP"
 	}
 	req := mkPacket(args[0], args[1], args[2], args[3], args[4])
-	useDefault := args[5] == "default"
+	useDefault := args[5] == "default" || strings.HasPrefix(args[5], "default:")
 	maxErr := 10
 	if !useDefault {
 		maxErr = atoi(args[5])
 	}
 	skip := atoi(args[6]) != 0
-	if useDefault && skip {
-		return "BAD-CASE"
+	if useDefault {
+		// the package-level function works with whatever the caller has put into radius.DefaultClient
+		// (cases of this property run one after the other in a process)
+		saved := *radius.DefaultClient
+		defer func() { *radius.DefaultClient = saved }()
+		if strings.HasPrefix(args[5], "default:") {
+			maxErr = atoi(args[5][8:])
+			radius.DefaultClient.MaxPacketErrors = maxErr
+		}
+		radius.DefaultClient.InsecureSkipVerify = skip
 	}
 	c05UseDefault = useDefault
 	hist := parseHistoryC05(args[7])
@@ -624,7 +637,15 @@ func genC05(g *Gen, tier string, emit func(op string, args ...string)) {
 		budget := itoa(maxErr)
 		if c%16 == 11 {
 			// through the package-level radius.Exchange: DefaultClient's budget (10) applies
-			budget, skip = "default", false
+			budget = "default"
+			switch (c / 16) % 4 {
+			case 0:
+				skip = false
+			case 1:
+				budget = "default:" + itoa(maxErr)
+			case 2:
+				skip = true
+			}
 		}
 		emit("exchange", itoa(reqCode), itoa(int(req.Identifier)), hx(auth), hx(secret), showAVPs(reqAttrs),
 			budget, map[bool]string{false: "0", true: "1"}[skip], showHistoryC05(hist))
